@@ -7,6 +7,7 @@ import (
 	"os"
 	"path/filepath"
 	"strings"
+	"unicode/utf8"
 
 	"github.com/edutko/decipher/internal/file"
 )
@@ -105,13 +106,37 @@ func inspectStdin() {
 
 func printInfo(info file.Info, indent int) {
 	indentStr := strings.Repeat(" ", indent)
-	fmt.Printf("%s%s\n", indentStr, info.Description)
+	fmt.Printf("%s%s\n", indentStr, sanitize(info.Description))
 	for _, a := range info.Attributes {
-		fmt.Printf("%s  %s: %s\n", indentStr, a.Name, a.Value)
+		fmt.Printf("%s  %s: %s\n", indentStr, sanitize(a.Name), sanitize(a.Value))
 	}
 	for _, child := range info.Children {
 		printInfo(child, indent+2)
 	}
+}
+
+// sanitize escapes control characters (C0, DEL, C1), bytes that are not valid
+// UTF-8, and the escape character itself, so that strings taken from the inspected
+// content cannot add lines to the report or send escape sequences to the terminal.
+func sanitize(s string) string {
+	var sb strings.Builder
+	for i := 0; i < len(s); {
+		r, size := utf8.DecodeRuneInString(s[i:])
+		switch {
+		case r == utf8.RuneError && size == 1:
+			fmt.Fprintf(&sb, "\\x%02x", s[i])
+		case r < 0x20 || r == 0x7f:
+			fmt.Fprintf(&sb, "\\x%02x", r)
+		case r >= 0x80 && r <= 0x9f:
+			fmt.Fprintf(&sb, "\\u%04x", r)
+		case r == '\\':
+			sb.WriteString("\\\\")
+		default:
+			sb.WriteString(s[i : i+size])
+		}
+		i += size
+	}
+	return sb.String()
 }
 
 var Version = "0.0.0"
